@@ -248,6 +248,8 @@ func c11Case(r *evid.Run, tier string, idx int, g *rng.R) {
 		{"", "fwd", vset, fwd}, {"", "rev", vset, rev}, {"", "empty", refeval.NodeSet{}, xsel.NodeSet{}}, {"", "shuf", vset, shuffled(g, fwd)},
 		{nsP, "n", 7.0, xsel.Number(7)}, {nsP, "set", vset, rev},
 		{"", "count", 9.0, xsel.Number(9)}, // a variable named like a builtin function
+		// names with combining marks (Mn, Mc), extenders and letters outside the BMP-Latin comfort zone
+		{"", "नाम", 21.0, xsel.Number(21)}, {nsP, "col·lecció", 22.0, xsel.Number(22)}, {"", "e\u0301t\u00e9", 23.0, xsel.Number(23)}, {"", "தமிழ்", 24.0, xsel.Number(24)}, {nsP, "x.y-z_1", 25.0, xsel.Number(25)},
 	}
 	if _, ok := env1.ns["nons"]; ok {
 		// $nons:m is the no-namespace variable m; $nons:n is $n
@@ -306,7 +308,7 @@ func c11Case(r *evid.Run, tier string, idx int, g *rng.R) {
 	}
 	// (c) user functions with a trace monitor
 	type fdef struct{ prefix, local string }
-	fns := []fdef{{"", "f"}, {nsP, "f"}, {"", "count"}, {"", "string"}, {"", "position"}, {nsP, "count"}}
+	fns := []fdef{{"", "f"}, {nsP, "f"}, {"", "count"}, {"", "string"}, {"", "position"}, {nsP, "count"}, {"", "नाम"}, {nsP, "col·lecció"}}
 	if _, ok := env1.ns["nons"]; ok {
 		fns = append(fns, fdef{"nons", "f"}, fdef{"nons", "count"}, fdef{"nons", "g"})
 	}
